@@ -114,8 +114,57 @@ class KType:
         return (2 * (self.K - 1 - j) + 1, 2 * (self.K - 1 - j))
 
 
+class CaseHarness(Harness):
+    """default harness of the bit-vector lemmas: a comparison `x == c` / `x != c` between a constant and a symbolic word all of whose
+    bits are literals (a variable or its negation) is decided by a case split — on the `equal` branch the variables are fixed to the
+    constant's bits (the lemma is then checked under that substitution), the `different` branch carries no extra knowledge."""
+    _script = []
+    _choices = []
+    subst = {}
+
+    @classmethod
+    def begin(cls, script):
+        cls._script = list(script)
+        cls._choices = []
+        cls.subst = {}
+
+    def unknown_compare(self, it, op, a, b):
+        if op not in ("Eq", "Ne"):
+            return None
+        for x, y in ((a, b), (b, a)):
+            if isinstance(y, Int) and y.is_conc() and isinstance(x, Int) and not x.is_conc():
+                lits = []
+                for i, t in enumerate(x.getbits()):
+                    c = bv.t_is_const(t)
+                    want = (y.val >> i) & 1
+                    if c is not None:
+                        if c != want:
+                            return op == "Ne"       # a constant bit already differs
+                        continue
+                    if t is TOP:
+                        return None
+                    neg = False
+                    t2 = t
+                    if len(t) == 2 and ONE <= t and len(t - ONE) == 1:
+                        t2, neg = t - ONE, True
+                    if not (len(t2) == 1 and len(next(iter(t2))) == 1):
+                        return None
+                    lits.append((next(iter(next(iter(t2)))), want ^ (1 if neg else 0)))
+                cls = CaseHarness
+                i_ = len(cls._choices)
+                eq = cls._script[i_] if i_ < len(cls._script) else False
+                cls._choices.append(eq)
+                if eq:
+                    for v, val in lits:
+                        if cls.subst.get(v, val) != val:
+                            return op == "Ne"
+                        cls.subst[v] = val
+                return eq if op == "Eq" else not eq
+        return None
+
+
 def run_inst(F, key, args, harness=None):
-    it = Interp(F, True, harness or Harness())
+    it = Interp(F, True, harness or CaseHarness())
     body = F.insts.get(key)
     if body is None:
         raise KeyError(key)
@@ -132,6 +181,11 @@ def expect_bits(rep, rule, key, got, want, desc, sample=None):
     if len(gb) != len(want):
         rep.violated(rule, key, "%s: result width %d, specified %d" % (desc, len(gb), len(want)))
         return False
+    if CaseHarness.subst:
+        gb = [bv.t_subst(x, CaseHarness.subst) for x in gb]
+        want = [bv.t_subst(x, CaseHarness.subst) for x in want]
+        desc = desc + " [case: %s]" % ", ".join("%s[%s]=%d" % (bv.var_name(v) + (val,)) for v, val in sorted(CaseHarness.subst.items())[:6])
+        key = key + "/case-%s" % "".join("1" if c else "0" for c in CaseHarness._choices)
     bad = None
     top = None
     for i, (g, w) in enumerate(zip(gb, want)):
@@ -154,7 +208,23 @@ def expect_bits(rep, rule, key, got, want, desc, sample=None):
 
 
 def guarded(rep, rule, key, desc, fn):
-    """run fn(); map interpreter exceptions to verdicts"""
+    """run fn() for every case split the default lemma harness makes; map interpreter exceptions to verdicts"""
+    stack = [[]]
+    res = None
+    n = 0
+    while stack and n < 64:
+        script = stack.pop()
+        n += 1
+        CaseHarness.begin(script)
+        res = _guarded_once(rep, rule, key, desc, fn)
+        ch = list(CaseHarness._choices)
+        for i in range(len(script), len(ch)):
+            stack.append(ch[:i] + [True])
+    CaseHarness.begin([])
+    return res
+
+
+def _guarded_once(rep, rule, key, desc, fn):
     try:
         return fn()
     except KeyError as e:
@@ -363,35 +433,135 @@ def kmer_lemmas(F, rep, tystr, which=None, slice_cap=32):
             hi, lo = kt.lane_bits(j)
             shi, slo = kt.lane_bits(K - 1 - j)
             rc_spec[hi], rc_spec[lo] = t_not(S[shi]), t_not(S[slo])
-        for order in "<=>":
-            def f(order=order):
-                h = OrdHarness(order, S, rc_spec)
-                r, _ = run_inst(F, kt.key("Kmer", "min_rc_flip"), [self_ref()], h)
-                rep.evaluations += 1
-                if not isinstance(r, Tup):
-                    rep.inconclusive("L-canon", "%s/min_rc_flip/%s" % (tag, order), "result not a tuple: %r" % (r,))
-                    return
-                kk, flip = r.fields
-                want_flip = order != "<"
-                ok = isinstance(flip, Int) and flip.is_conc() and bool(flip.val) == want_flip
-                if not ok:
-                    rep.violated("L-canon", "%s/min_rc_flip/%s" % (tag, order),
-                                 "min_rc_flip: when self %s rc(self) the flip flag must be %s, got %r" % (order, want_flip, flip),
-                                 witness={"kind": "row", "row": {"ord(self,rc)": order}, "got": repr(flip), "spec": want_flip})
-                    return
-                expect_bits(rep, "L-canon", "%s/min_rc_flip/%s" % (tag, order), kt.storage_of(kk),
-                            rc_spec if want_flip else S,
-                            "min_rc_flip returns %s when self %s rc(self)" % ("rc" if want_flip else "self", order))
-            guarded(rep, "L-canon", "%s/min_rc_flip/%s" % (tag, order), "min_rc_flip", f)
+        def canon(meth):
+            """min_rc / min_rc_flip return the lexicographically smaller of the k-mer and its reverse complement (and whether that is the
+            reverse complement), however the order is decided: by comparing the two whole values, or base by base (base i against the
+            complement of base K-1-i — the i-th base of the reverse complement).  Each comparison is an oracle; the answer must be right
+            for every k-mer consistent with the comparisons made, i.e. the code must have looked at enough pairs to know the order."""
+            from .dt import Oracles, explore
+            half = (K + 1) // 2          # pairs (i, K-1-i) for i < half decide the order; for odd K the middle base never ties
 
-            def g(order=order):
-                h = OrdHarness(order, S, rc_spec)
-                r, _ = run_inst(F, kt.key("Kmer", "min_rc"), [self_ref()], h)
-                want_flip = order != "<"
-                expect_bits(rep, "L-canon", "%s/min_rc/%s" % (tag, order), kt.storage_of(r),
-                            rc_spec if want_flip else S,
-                            "min_rc returns the smaller of self and rc (self %s rc)" % order)
-            guarded(rep, "L-canon", "%s/min_rc/%s" % (tag, order), "min_rc", g)
+            def lane_of(v, negated):
+                bits = list(v.getbits())
+                if any(x != ZERO for x in bits[2:]):
+                    return None
+                for j in range(K):
+                    hi, lo = kt.lane_bits(j)
+                    lo_t, hi_t = (t_not(S[lo]), t_not(S[hi])) if negated else (S[lo], S[hi])
+                    if bits[0] == lo_t and bits[1] == hi_t:
+                        return j
+                return None
+
+            class CanonH(Oracles):
+                def pair(self, i, j):
+                    # self[i] ? complement(self[j]); for the middle base of an odd k-mer equality is impossible
+                    dom = ("<", ">") if i == j else ("<", "=", ">")
+                    return self.choose("base%d?compl(base%d)" % (i, j), dom)
+
+                def whole(self, a, b):
+                    ba, bb = list(a.getbits()), list(b.getbits())
+                    if ba == list(S) and bb == rc_spec:
+                        return 1
+                    if ba == rc_spec and bb == list(S):
+                        return -1
+                    return 0
+
+                def order(self, a, b):
+                    if a.w == W:
+                        o_ = self.whole(a, b)
+                        if o_:
+                            o = self.choose("ord(self,rc)", ("<", "=", ">") if K % 2 == 0 else ("<", ">"))
+                            return o if o_ == 1 else {"<": ">", "=": "=", ">": "<"}[o]
+                    i, j = lane_of(a, False), lane_of(b, True)
+                    if i is not None and j is not None:
+                        return self.pair(i, j)
+                    i, j = lane_of(b, False), lane_of(a, True)
+                    if i is not None and j is not None:
+                        return {"<": ">", "=": "=", ">": "<"}[self.pair(i, j)]
+                    return None
+
+                def unknown_compare(self, it, op, a, b):
+                    o = self.order(a, b)
+                    if o is None:
+                        return None
+                    return {"Eq": o == "=", "Ne": o != "=", "Lt": o == "<", "Le": o in "<=", "Gt": o == ">", "Ge": o in ">="}[op]
+
+                def unknown_cmp(self, it, a, b):
+                    o = self.order(a, b)
+                    return None if o is None else {"<": 0, "=": 1, ">": 2}[o]
+
+            def run(h):
+                r, _ = run_inst(F, kt.key("Kmer", meth), [self_ref()], h)
+                return r
+            bad, inc, rows = None, None, 0
+            for a, out, h in explore(lambda script: CanonH(script), run, max_runs=6000):
+                rows += 1
+                rep.evaluations += 1
+                if isinstance(out, tuple) and out and out[0] in ("inconclusive", "diverge"):
+                    if out[0] == "diverge":
+                        bad = bad or ("%s diverges: %s" % (meth, out[1]), a)
+                    else:
+                        inc = inc or out[1]
+                    continue
+                if meth == "min_rc_flip":
+                    if not (isinstance(out, Tup) and len(out.fields) == 2 and isinstance(out.fields[1], Int) and out.fields[1].is_conc()):
+                        inc = inc or ("result %r" % (out,))
+                        continue
+                    kk, flip = out.fields[0], bool(out.fields[1].val)
+                else:
+                    kk, flip = out, None
+                got = list(kt.storage_of(kk).getbits()) if hasattr(kt.storage_of(kk), "getbits") else None
+                is_self, is_rc = got == list(S), got == rc_spec
+                if not (is_self or is_rc):
+                    bad = bad or ("%s returns a value that is neither the k-mer nor its reverse complement" % meth, a)
+                    continue
+                # which orders are still possible given the comparisons made?
+                possible = set()
+                if "ord(self,rc)" in a:
+                    possible = {a["ord(self,rc)"]}
+                else:
+                    undecided = True
+                    for i in range(half):
+                        v_ = a.get("base%d?compl(base%d)" % (i, K - 1 - i))
+                        if v_ is None:
+                            # never compared: this pair can come out either way (or tie, unless it is the middle base)
+                            possible |= {"<", ">"}
+                            if i == K - 1 - i:
+                                undecided = False
+                                break
+                            continue
+                        if v_ in "<>":
+                            possible.add(v_)
+                            undecided = False
+                            break
+                    if undecided and K % 2 == 0:
+                        possible.add("=")
+                stray = [k_ for k_ in a if k_.startswith("base") and "?compl(base" in k_ and int(k_[4:k_.index("?")]) + int(k_[k_.index("(base") + 5:-1]) != K - 1]
+                if stray:
+                    bad = bad or ("%s compares %s — not a base of the k-mer against the corresponding base of its reverse complement" % (meth, stray[0]), a)
+                    continue
+                for o in sorted(possible):
+                    want_rc = o == ">"
+                    ok = (is_rc if want_rc else is_self) or o == "="
+                    if flip is not None and o != "=":
+                        ok = ok and flip == want_rc
+                    if not ok:
+                        unseen = [i for i in range(half) if ("base%d?compl(base%d)" % (i, K - 1 - i)) not in a]
+                        bad = bad or ("%s returns %s%s although the k-mer %s its reverse complement is consistent with every comparison it made%s" % (
+                            meth, "the reverse complement" if is_rc else "the k-mer itself", "" if flip is None else " with flip=%s" % flip,
+                            {"<": "being smaller than", ">": "being larger than"}[o],
+                            (" (base pair(s) %s were never compared, K = %d)" % ([(i, K - 1 - i) for i in unseen][:3], K)) if unseen and "ord(self,rc)" not in a else ""), a)
+                        break
+            key = "%s/%s" % (tag, meth)
+            if bad:
+                rep.violated("L-canon", key, bad[0], witness={"kind": "row", "row": {k_: str(v_) for k_, v_ in bad[1].items()}})
+            elif inc:
+                rep.inconclusive("L-canon", key, "%s: %s" % (meth, inc))
+            else:
+                rep.holds("L-canon", key, "%s returns the smaller of the k-mer and its reverse complement%s (%d outcome rows)" % (
+                    meth, " and flip = (it is the reverse complement)" if meth == "min_rc_flip" else "", rows))
+        for meth in ("min_rc_flip", "min_rc"):
+            guarded(rep, "L-canon", "%s/%s" % (tag, meth), meth, lambda meth=meth: canon(meth))
 
         def pal():
             """is_palindrome ⇔ K even ∧ self = rc(self), whatever way it is computed: comparisons of the whole k-mer with its reverse
@@ -507,6 +677,9 @@ def kmer_lemmas(F, rep, tystr, which=None, slice_cap=32):
 
 def expect_pop(rep, rule, key, got, spec_terms, desc):
     """the popcount argument must consist of exactly the specified lane terms (as a multiset)"""
+    if CaseHarness.subst:
+        rep.inconclusive(rule, key + _case_suffix(), "%s: decided under a case split this comparison does not support" % desc)
+        return
     rep.evaluations += 1
     if isinstance(got, Int) and got.is_conc():
         terms = []
@@ -713,6 +886,10 @@ class LmerT:
         return [e for e in v.fields[0].elems]
 
 
+def _case_suffix():
+    return ("/case-%s" % "".join("1" if c else "0" for c in CaseHarness._choices)) if CaseHarness.subst else ""
+
+
 def expect_words(rep, rule, key, got_words, spec_words, desc):
     rep.evaluations += 1
     for wi, (g, sp) in enumerate(zip(got_words, spec_words)):
@@ -720,6 +897,9 @@ def expect_words(rep, rule, key, got_words, spec_words, desc):
             rep.inconclusive(rule, key, "%s: word %d is not an integer: %r" % (desc, wi, g))
             return False
         gb = g.getbits()
+        if CaseHarness.subst:
+            gb = [bv.t_subst(x, CaseHarness.subst) for x in gb]
+            sp = [bv.t_subst(x, CaseHarness.subst) for x in sp]
         for i in range(64):
             if gb[i] is TOP:
                 rep.inconclusive(rule, key, "%s: word %d bit %d unknown" % (desc, wi, i))
@@ -728,7 +908,7 @@ def expect_words(rep, rule, key, got_words, spec_words, desc):
                 rep.violated(rule, key, "%s: word %d bit %d is %s, specified %s" % (desc, wi, i, bv.t_str(gb[i]), bv.t_str(sp[i])),
                              witness={"kind": "bit", "word": wi, "bit": i, "got": bv.t_str(gb[i]), "spec": bv.t_str(sp[i])})
                 return False
-    rep.holds(rule, key, desc)
+    rep.holds(rule, key + _case_suffix(), desc)
     return True
 
 
@@ -1010,6 +1190,9 @@ def expect_dna(rep, rule, key, dt, got, spec_words, spec_len, desc):
         if gb is None:
             rep.inconclusive(rule, key, "%s: word %d is %r" % (desc, wi, g))
             return False
+        if CaseHarness.subst:
+            gb = [bv.t_subst(x, CaseHarness.subst) for x in gb]
+            sp = [bv.t_subst(x, CaseHarness.subst) for x in sp]
         for i in range(64):
             if gb[i] is TOP:
                 rep.inconclusive(rule, key, "%s: word %d bit %d unknown" % (desc, wi, i))
@@ -1200,6 +1383,9 @@ def dnastring_lemmas(F, rep, which=None, maxn=70, ktypes=None, kmer_positions=No
 
 def expect_popsum(rep, rule, key, got, spec_terms, desc):
     """a sum of population counts (ndiffs adds one per word): collect the counted terms of the summands"""
+    if CaseHarness.subst:
+        rep.inconclusive(rule, key + _case_suffix(), "%s: decided under a case split this comparison does not support" % desc)
+        return
     rep.evaluations += 1
     terms = None
     if isinstance(got, Int) and got.is_conc():
@@ -1232,6 +1418,42 @@ class RenderOracles:
     """mixin for a WriterOracles-like harness: bits_to_ascii / bits_to_base return a value tagged with the exact
     provenance of their argument bits"""
     pass
+
+
+def ascii_bits(lo, hi, width=8):
+    """the ASCII letter of the base whose two bits are the terms (lo, hi): A C G T = 65 67 71 84, as ANF terms"""
+    vals = {0: 65, 1: 67, 2: 71, 3: 84}
+    out = []
+    for bit in range(width):
+        tt = [(vals[b] >> bit) & 1 if bit < 8 else 0 for b in range(4)]        # index = lo + 2*hi
+        # Moebius over (lo, hi)
+        c0 = tt[0]
+        c_lo = tt[0] ^ tt[1]
+        c_hi = tt[0] ^ tt[2]
+        c_both = tt[0] ^ tt[1] ^ tt[2] ^ tt[3]
+        t = ONE if c0 else ZERO
+        if c_lo:
+            t = t_xor(t, lo)
+        if c_hi:
+            t = t_xor(t, hi)
+        if c_both:
+            t = t_xor(t, t_and(lo, hi))
+        out.append(t)
+    return out
+
+
+def renders_base(e, lo, hi):
+    """is the output element e the letter of the base (lo, hi)?  Either the (uninterpreted) table result tagged with exactly these bits,
+    or an integer whose bits are the ASCII letter as a function of them"""
+    from .absint import tags_of
+    if not isinstance(e, Int):
+        return False
+    if ("r:%s|%s" % (bv.t_str(lo), bv.t_str(hi))) in tags_of(e):
+        return True
+    bits = list(e.getbits())
+    if any(b is TOP for b in bits):
+        return False
+    return bits == ascii_bits(lo, hi, len(bits))
 
 
 def _render_tag(arg):
@@ -1706,14 +1928,15 @@ def kmer_default_lemmas(F, rep, tystr, which=None, rule="L-default"):
             for j in range(K):
                 hi, lo = kt.lane_bits(j)
                 want_t.append("r:%s|%s" % (bv.t_str(S[lo]), bv.t_str(S[hi])))
-            got = None if el is None else [([x for x in tags_of(e) if x.startswith("r:")] or [None])[0] if isinstance(e, Int) else None for e in el]
-            if h.bad or got is None or any(g is None for g in got):
-                rep.inconclusive(rule, "%s/to_string" % tag, "to_string: %s" % (h.bad[0] if h.bad else repr(r)))
-            elif got == want_t:
+            lanes = [kt.lane_bits(j) for j in range(K)]
+            if h.bad or el is None or any(not isinstance(e, Int) or (any(b is TOP for b in e.getbits()) and not any(x.startswith("r:") for x in tags_of(e))) for e in el):
+                rep.inconclusive(rule, "%s/to_string" % tag, "to_string: %s" % (h.bad[0] if h.bad else repr(r)[:200]))
+            elif len(el) == K and all(renders_base(e, S[lo], S[hi]) for e, (hi, lo) in zip(el, lanes)):
                 rep.holds(rule, "%s/to_string" % tag, "to_string() is the letter of base 0..K in order")
             else:
-                rep.violated(rule, "%s/to_string" % tag, "to_string() renders %s…; specified the letters of bases 0..%d in order (%s…)" % (got[:3], K, want_t[:3]),
-                             witness={"kind": "render", "got": got[:8], "want": want_t[:8]})
+                badj = next((j for j, (e, (hi, lo)) in enumerate(zip(el, lanes)) if not renders_base(e, S[lo], S[hi])), min(len(el), K))
+                rep.violated(rule, "%s/to_string" % tag, "to_string() renders %d letters; letter %d is not the letter of base %d (specified: the letters of bases 0..%d "
+                             "in order)" % (len(el), badj, badj, K), witness={"kind": "render", "position": badj, "got": repr(el[badj])[:200] if badj < len(el) else None})
         guarded(rep, rule, "%s/to_string" % tag, "to_string", f)
 
     if want("bulk"):
